@@ -2,6 +2,8 @@
 package main
 
 import (
+	"reflect"
+	"encoding/json"
 	"bytes"
 	"fmt"
 	"math"
@@ -333,6 +335,60 @@ func main() {
 					}
 					if refgeom.Struct(got) != refgeom.Struct(wg) {
 						c.Failf("collection-combination", "clip.Geometry(%s) = %v, member-wise %v", desc, got, wg)
+					}
+				}
+			}
+			// the encoders write a collection as the list of what they write for each member alone
+			{
+				var wktParts, jsonParts []string
+				var wkbParts []byte
+				ok := true
+				for _, m := range col {
+					_, p1 := try(func() interface{} {
+						wktParts = append(wktParts, wkt.MarshalString(m))
+						b, err := wkb.Marshal(m)
+						if err != nil || m == nil {
+							ok = false
+						}
+						wkbParts = append(wkbParts, b...)
+						j, err := geojson.NewGeometry(m).MarshalJSON()
+						if err != nil {
+							ok = false
+						}
+						jsonParts = append(jsonParts, string(j))
+						return nil
+					})
+					if p1 != "" {
+						ok = false
+					}
+				}
+				if ok {
+					if v, p := try(func() interface{} { return wkt.MarshalString(g) }); p == "" {
+						if want := "GEOMETRYCOLLECTION(" + strings.Join(wktParts, ",") + ")"; v.(string) != want {
+							c.Failf("collection-combination", "wkt.MarshalString(%s) = %q, member-wise %q", desc, v, want)
+						}
+					}
+					if v, p := try(func() interface{} { b, _ := wkb.Marshal(g); return b }); p == "" {
+						want := append([]byte{1, 7, 0, 0, 0, byte(len(col)), byte(len(col) >> 8), 0, 0}, wkbParts...)
+						if !bytes.Equal(v.([]byte), want) {
+							c.Failf("collection-combination", "wkb.Marshal(%s) = %x, member-wise %x", desc, v, want)
+						}
+					}
+					if v, p := try(func() interface{} { b, _ := geojson.NewGeometry(g).MarshalJSON(); return string(b) }); p == "" {
+						var got struct {
+							Type       string            `json:"type"`
+							Geometries []json.RawMessage `json:"geometries"`
+						}
+						same := json.Unmarshal([]byte(v.(string)), &got) == nil && got.Type == "GeometryCollection" && len(got.Geometries) == len(jsonParts)
+						for i := 0; same && i < len(jsonParts); i++ {
+							var a, b interface{}
+							if json.Unmarshal(got.Geometries[i], &a) != nil || json.Unmarshal([]byte(jsonParts[i]), &b) != nil || !reflect.DeepEqual(a, b) {
+								same = false
+							}
+						}
+						if !same {
+							c.Failf("collection-combination", "geojson of %s = %s, its members alone encode as %v", desc, v, jsonParts)
+						}
 					}
 				}
 			}
